@@ -1,8 +1,11 @@
 #!/venv/bin/python
 """Maintainer tool: verify sub-agent mutants in a scratch worktree and file them under /verif/seeded/.
-usage: tools/seed_verify.py C01 C02 ...   (reads /tmp/seed/<id>/_seed/{patchK.diff,demoK.py,metaK.json})"""
+usage: ROUND=seed2 OFFSET=2 tools/seed_verify.py C01 C02 ...   (reads /tmp/<ROUND>/<id>/_seed/{patchK.diff,demoK.py,metaK.json};
+mutant K is filed as seeded/<id>-<K+OFFSET>).  Remove /tmp/vseed_wt afterwards: git -C /repo worktree remove --force /tmp/vseed_wt"""
 import json, os, shutil, subprocess, sys
 ROOT = os.path.dirname(os.path.dirname(os.path.abspath(__file__)))
+ROUND = os.environ.get('ROUND', 'seed')
+OFFSET = int(os.environ.get('OFFSET', '0'))
 WT = '/tmp/vseed_wt'
 def sh(cmd, **kw):
     return subprocess.run(cmd, shell=True, capture_output=True, text=True, **kw)
@@ -12,13 +15,13 @@ if not os.path.exists(WT):
 sh(f'git -C {WT} checkout -q --detach $(git -C /repo rev-parse HEAD) && git -C {WT} checkout -- .')
 env = dict(os.environ, PYTHONPATH=f'{WT}/src')
 for pid in sys.argv[1:]:
-    sd = f'/tmp/seed/{pid}/_seed'
-    for k in (1, 2, 3):
+    sd = f'/tmp/{ROUND}/{pid}/_seed'
+    for k in (1, 2, 3, 4):
         patch = f'{sd}/patch{k}.diff'
         if not os.path.exists(patch):
             continue
         demo = f'{sd}/demo{k}.py'
-        res = {'id': f'{pid}-{k}', 'property': pid}
+        res = {'id': f'{pid}-{k + OFFSET}', 'property': pid}
         r0 = sh(f'/venv/bin/python {demo}', env=env, cwd='/tmp')
         res['demo_clean_exit'] = r0.returncode
         a = sh(f'git -C {WT} apply {patch}')
@@ -36,7 +39,7 @@ for pid in sys.argv[1:]:
         ok = res['demo_clean_exit'] == 0 and res['demo_patched_exit'] != 0 and res['compiles'] and '2927 passed' in res['tests'] and ' failed' not in (' ' + res['tests']).replace('xfailed', '') and ' error' not in res['tests']
         res['kept'] = ok
         if ok:
-            out = f'{ROOT}/seeded/{pid}-{k}'
+            out = f'{ROOT}/seeded/{pid}-{k + OFFSET}'
             os.makedirs(out, exist_ok=True)
             shutil.copy(patch, f'{out}/patch.diff'); shutil.copy(demo, f'{out}/demo.py')
             meta = json.load(open(f'{sd}/meta{k}.json')) if os.path.exists(f'{sd}/meta{k}.json') else {}
